@@ -16,4 +16,20 @@ def exOracle : Store → List Goal → Option Sol := fun st gs =>
   if st = [] ∧ gs = [exG1] then some exS1
   else if st = exSt1 ∧ gs = [exG2] then some exS2 else none
 
+/-! A run in which equality folding triggers: p1 wants `2 ≤ x ≤ 2 + 1e-9` (range (-10, 10)) and is
+    answered with `x = 2 + 0.25e-9`, ε = 0 — the retained interval `[2, 2 + 1e-9]` is narrower than
+    `equality_threshold = 1e-8` and is folded to its mid point `c = 2 + 0.5e-9`; p2 minimises `x`
+    under the store `[c, c]` and is answered with `x = c` (which is *not* the value attained at p1). -/
+
+def exC : Rat := 2 + 1 / 2000000000
+def exF1 : Goal := { fk := "x", tmin := .scalar (.fin 2), tmax := .scalar (.fin (2 + 1 / 1000000000)),
+                     rangeLo := [.fin (-10)], rangeHi := [.fin 10], rangeDefault := false }
+def exF2 : Goal := { fk := "x", priority := 2 }
+def exFS1 : Sol := { fval := fun _ _ => 2 + 1 / 4000000000, eps := fun _ _ => 0 }
+def exFS2 : Sol := { fval := fun _ _ => exC, eps := fun _ _ => 0 }
+def exFSt1 : Store := [(("x", 0), ⟨EVal.fin exC, EVal.fin exC⟩)]
+def exOracleM : (Unit → Store) → (Unit → List Goal) → Option (Unit → Sol) := fun st gs =>
+  if st () = [] ∧ gs () = [exF1] then some (fun _ => exFS1)
+  else if st () = exFSt1 ∧ gs () = [exF2] then some (fun _ => exFS2) else none
+
 end RtcVerif.C02
